@@ -1,10 +1,10 @@
 package props
 
 import (
-	"strings"
 	"encoding/json"
 	"fmt"
 	"math"
+	"strings"
 	"sync/atomic"
 	"time"
 
